@@ -801,6 +801,9 @@ def user_models(c):
         ('enable_sensitivities', lambda m: m.enable_sensitivities(not m.has_sensitivities())),
         ('simulate', lambda m: m.simulate(np.full(m.n_parameters(), 0.7), [0.5, 1.5])),
         ('fix_parameters', lambda m: m.fix_parameters({m.parameters()[0]: 0.123}) if hasattr(m, 'fix_parameters') else None),
+        # re-fixing an already fixed parameter writes into the wrapper's value buffer
+        ('fix_parameters(re-fix)', lambda m: m.fix_parameters({m.mechanistic_model().parameters()[1]: 7.7}) if hasattr(m, 'fix_parameters') else None),
+        ('fix_parameters(release)', lambda m: m.fix_parameters({m.mechanistic_model().parameters()[1]: None}) if hasattr(m, 'fix_parameters') else None),
     ]
     return [('PKPD(dosed)', pkpd(), mech_mut), ('PKPD(dosed, direct, sensitivities on)', pkpd(True, True), mech_mut), ('SBML(tumour growth)', lambda: c.SBMLModel([f for f in lib if f.endswith('tgi_Koch_2009.xml')][0]), mech_mut[2:5]),
             ('Reduced(PKPD dosed){one fixed}', reduced, mech_mut), ('copy of Reduced(PKPD dosed)', reduced_of_reduced_copy, mech_mut)]
@@ -812,10 +815,15 @@ def user_error_models(c):
             r = c.ReducedErrorModel(getattr(c, e)())
             return r
         return f
-    mut = [('set_parameter_names', lambda e: e.set_parameter_names(['Q%d' % k for k in range(e.n_parameters())])),
-           ('fix_parameters', lambda e: e.fix_parameters({e.get_parameter_names()[0]: 0.321}) if hasattr(e, 'fix_parameters') else None)]
+    def red_fixed():
+        r = c.ReducedErrorModel(c.ConstantAndMultiplicativeGaussianErrorModel())
+        r.fix_parameters({r.get_parameter_names()[0]: 0.4})
+        return r
+    mut = [('fix_parameters(re-fix)', lambda e: e.fix_parameters({e.get_error_model().get_parameter_names()[0]: 1.9}) if hasattr(e, 'fix_parameters') else None),
+           ('fix_parameters', lambda e: e.fix_parameters({e.get_parameter_names()[0]: 0.321}) if hasattr(e, 'fix_parameters') else None),
+           ('set_parameter_names', lambda e: e.set_parameter_names(['Q%d' % k for k in range(e.n_parameters())]))]
     return [('GaussianErrorModel', lambda: c.GaussianErrorModel(), mut), ('ConstantAndMultiplicativeGaussianErrorModel', lambda: c.ConstantAndMultiplicativeGaussianErrorModel(), mut),
-            ('Reduced(LogNormalErrorModel)', red('LogNormalErrorModel'), mut)]
+            ('Reduced(LogNormalErrorModel)', red('LogNormalErrorModel'), mut), ('Reduced(ConstantAndMultiplicativeGaussianErrorModel){first fixed}', red_fixed, mut)]
 
 
 def owners(c):
@@ -983,7 +991,7 @@ def bounded_later_changes(rec, part=0, parts=1):
         return None
     cases = cases[part::parts]
     rec.native_check('later-changes[%d]' % part, ['chi._log_pdfs.LogLikelihood.__init__', 'chi._predictive_models.PredictiveModel.__init__', 'chi._problems.ProblemModellingController.__init__'], cases, one,
-                     'owners {LogLikelihood, PredictiveModel, ProblemModellingController} x 5 mechanistic model kinds x 3 error model kinds; after each of up to 8 public mutators of the user models the owner is re-observed '
+                     'owners {LogLikelihood, PredictiveModel, ProblemModellingController} x 5 mechanistic model kinds x 4 error model kinds; after each of up to 11 public mutators of the user models the owner is re-observed '
                      '(names, value, gradient / seeded samples / regimen); distinct by construction', exhaustive=True)
 
 
@@ -1080,7 +1088,7 @@ def bounded_inputs(rec):
                 rows.append({'ID': i_, 'Time': t, 'Observable': 'o0', 'Value': 4.0 + t, 'Extra': 'x'})
             rows.append({'ID': i_, 'Time': np.nan, 'Observable': 'Age', 'Value': 30.0, 'Extra': 'y'})
         return pd.DataFrame(rows)
-    cases = ['controller.set_data', 'LogLikelihood(observations, times)', 'PredictiveModel.sample(parameters, times)', 'PopulationPredictiveModel.sample(covariates)', 'HierarchicalLogLikelihood(covariates)',
+    cases = ['controller.set_data', 'controller.set_data(dosing model, no duration column)', 'LogLikelihood(observations, times)', 'PredictiveModel.sample(parameters, times)', 'PopulationPredictiveModel.sample(covariates)', 'HierarchicalLogLikelihood(covariates)',
              'filters(observations, simulations)', 'PosteriorPredictiveModel(posterior)']
 
     def one(case):
@@ -1096,6 +1104,25 @@ def bounded_inputs(rec):
             post(np.full(post.n_parameters(), 0.8))
             if not df.equals(ref) or list(df.columns) != list(ref.columns) or str(df.dtypes.tolist()) != str(ref.dtypes.tolist()):
                 return 'ProblemModellingController.set_data / get_log_posterior modified the data frame passed in'
+            return None
+        if case.startswith('controller.set_data(dosing'):
+            from contracts import c14
+            rows = []
+            for i_ in (1, 2):
+                for t in (1.0, 2.0, 3.0):
+                    rows.append({'ID': i_, 'Time': t, 'Observable': 'o0', 'Value': 4.0 + t + i_, 'Dose': np.nan})
+                    rows.append({'ID': i_, 'Time': t, 'Observable': 'o1', 'Value': 9.0 + t + i_, 'Dose': np.nan})
+                rows.append({'ID': i_, 'Time': 0.5, 'Observable': np.nan, 'Value': np.nan, 'Dose': 2.0 * i_})
+            df = pd.DataFrame(rows)
+            ref = df.copy(deep=True)
+            ctrl = chi.ProblemModellingController(c14.toy_model(chi)(), [chi.GaussianErrorModel(), chi.GaussianErrorModel()])
+            ctrl.set_data(df, dose_duration_key=None)
+            ctrl.set_log_prior(pints.ComposedLogPrior(*[pints.LogNormalLogPrior(-0.5, 0.2) for _ in range(ctrl.get_n_parameters())]))
+            post = ctrl.get_log_posterior(individual='2')
+            post(np.full(post.n_parameters(), 0.8))
+            ctrl.set_data(df, dose_duration_key=None)
+            if not df.equals(ref) or list(df.columns) != list(ref.columns):
+                return 'ProblemModellingController.set_data(dose_duration_key=None) modified the data frame passed in (columns %s, were %s)' % (list(df.columns), list(ref.columns))
             return None
         if case.startswith('LogLikelihood'):
             obs, times = np.array([4.0, 5.0, 6.5]), np.array([1.0, 2.0, 3.0])
@@ -1160,7 +1187,7 @@ def bounded_inputs(rec):
                 return 'PosteriorPredictiveModel modified the posterior dataset passed in'
             return None
     rec.native_check('inputs', ['chi._problems.ProblemModellingController.set_data', 'chi._log_pdfs.LogLikelihood.__init__', 'chi._predictive_models.*.sample', 'chi._population_filters.*'], cases, one,
-                     '7 entry points that take arrays / data frames / datasets: deep copies before, equality after construction and every evaluation; distinct by entry point', exhaustive=True)
+                     '8 entry points that take arrays / data frames / datasets: deep copies before, equality after construction and every evaluation; distinct by entry point', exhaustive=True)
 
 
 TASKS = [('error', error_models), ('loglikelihood', likelihoods), ('hierarchical', hierarchical), ('predictive', predictive), ('ownership', ownership), ('filter', filters), ('processes', bounded_processes), ('inputs', bounded_inputs)] + [('histories%d' % k, (lambda rec, k=k: bounded_histories(rec, k, 6))) for k in range(6)] + [('later-changes%d' % k, (lambda rec, k=k: bounded_later_changes(rec, k, 4))) for k in range(4)] + [('population%d' % k, (lambda rec, k=k: population_models(rec, k))) for k in range(3)]
